@@ -392,6 +392,9 @@ func (x *Exec) unop(st *State, fr *Frame, v *ssa.UnOp) Val {
 		if p.Kind == PObj {
 			x.safety(st, fr, v, "nil-deref", Ne(p.Ref, IntC(0)), p.Ref)
 		}
+		if p.Kind == PGlobal && p.Global.Name() == "init$guard" {
+			return TFalse // the package initialiser is verified for its one real run
+		}
 		if p.Kind == PGlobal && p.Path == "" {
 			if tbl := x.ld.constMaps[p.Global]; tbl != nil {
 				return IntC(int64(-1000 - tbl.id))
